@@ -542,7 +542,15 @@ func defineFieldMap(ttype Named, fieldMap Fields) (FieldDefinitionMap, error) {
 		}
 
 		fieldDef.Args = []*Argument{}
-		for argName, arg := range field.Args {
+		// in name order: the order of a field's arguments (introspection,
+		// error messages) must not depend on map iteration
+		argNames := make([]string, 0, len(field.Args))
+		for argName := range field.Args {
+			argNames = append(argNames, argName)
+		}
+		sort.Strings(argNames)
+		for _, argName := range argNames {
+			arg := field.Args[argName]
 			if err = assertValidName(argName); err != nil {
 				return resultFieldMap, err
 			}
